@@ -149,6 +149,26 @@ def check_point_functions(run, drv, ld, thorough):
             run.violation("group velocity differs from dw/dk by more than 2e-3 relative", dict(k=k, d=d, cg=cg, dwdk=num))
 
 
+def check_integer_inputs(run, ld):
+    """integer-typed frequencies, wavenumbers and depths (scalars and arrays) are frequencies, wavenumbers and depths"""
+    for w_, d_ in ((1, 10.0), (2, 3), (np.int64(1), np.inf), (np.array([1, 2, 3]), 50.0), (np.array([1, 2]), np.array([5, 500])), (1.0, 10)):
+        run.case("integer_inputs", key=(str(w_), str(d_)))
+        with warnings.catch_warnings():
+            warnings.simplefilter("ignore")
+            try:
+                k = np.atleast_1d(np.asarray(ld.inverse_intrinsic_dispersion_relation(w_, d_), dtype=float))
+                kf = np.atleast_1d(np.asarray(ld.inverse_intrinsic_dispersion_relation(np.asarray(w_, dtype=float) if np.ndim(w_) else float(w_),
+                                                                                        np.asarray(d_, dtype=float) if np.ndim(d_) else float(d_)), dtype=float))
+                cg = np.atleast_1d(np.asarray(ld.intrinsic_group_velocity(w_, d_), dtype=float))          # (w_ read as a wavenumber)
+                cgf = np.atleast_1d(np.asarray(ld.intrinsic_group_velocity(np.asarray(w_, dtype=float) if np.ndim(w_) else float(w_),
+                                                                           np.asarray(d_, dtype=float) if np.ndim(d_) else float(d_)), dtype=float))
+            except Exception as ex:
+                run.violation("an integer-typed frequency / wavenumber / depth is rejected", dict(w=str(w_), depth=str(d_), error=repr(ex)[:300]))
+                continue
+            if not np.allclose(k, kf, rtol=1e-12) or not np.allclose(cg, cgf, rtol=1e-12):
+                run.violation("integer-typed inputs give other values than the same numbers as floats", dict(w=str(w_), depth=str(d_)))
+
+
 def check_spectrum(run, ld, thorough):
     from . import spectra as sp
     rng = run.rng
@@ -183,6 +203,21 @@ def check_spectrum(run, ld, thorough):
             ref = np.asarray(ld.intrinsic_group_velocity(k.reshape(-1), dd.reshape(-1)), dtype=float).reshape(k.shape)
             if cg.shape != k.shape or not np.allclose(cg, ref, rtol=1e-12):
                 run.violation("spectrum group velocity is not the group-velocity function at (k, depth)", dict(layout=meta["layout"]))
+            # the arrays follow the depth the spectrum has now: read, set the depth in place (survey data arriving later), read again
+            run.case("spectrum_depth_updated", key=(case,))
+            newdep = np.array([rng.choice([3.0, 12.0, 40.0, 400.0]) for _ in range(max(depth.size, 1))], dtype=float).reshape(depth.shape)
+            spec["depth"] = (spec.dataset["depth"].dims, newdep) if depth.shape else float(newdep)
+            k2 = np.asarray(spec.wavenumber.values, dtype=float)
+            cg2 = np.asarray(spec.group_velocity.values, dtype=float)
+            dd2 = newdep.reshape(newdep.shape + (1,)) * np.ones(len(f))
+            with np.errstate(all="ignore"):
+                wk2 = np.sqrt(G * k2 * np.tanh(k2 * dd2))
+            if k2.shape != want_shape or np.any(~(np.abs(wk2 - w) <= 1e-3 * w)):
+                run.violation("after the depth of a spectrum was set, its wavenumbers still belong to the old depth",
+                              dict(layout=meta["layout"], old_depth=dep.tolist(), new_depth=newdep.tolist()))
+            ref2 = np.asarray(ld.intrinsic_group_velocity(k2.reshape(-1), dd2.reshape(-1)), dtype=float).reshape(k2.shape)
+            if cg2.shape != k2.shape or not np.allclose(cg2, ref2, rtol=1e-12):
+                run.violation("after the depth of a spectrum was set, its group velocity is not the function at (k, new depth)", dict(layout=meta["layout"]))
 
 
 def main(prop, tier, seed):
@@ -197,6 +232,8 @@ def main(prop, tier, seed):
             check_solver(run, drv, ld, thorough)
         with common.guard(run, "point functions"):
             check_point_functions(run, drv, ld, thorough)
+        with common.guard(run, "integer-typed inputs"):
+            check_integer_inputs(run, ld)
         with common.guard(run, "spectrum level"):
             check_spectrum(run, ld, thorough)
     finally:
